@@ -289,6 +289,21 @@ func wellFormedStructure(g *genetics.Genome, ancestors IORoles) error {
 			return fmt.Errorf("node %d references a trait (id %d) that is not one of the genome's traits", n.Id, n.Trait.Id)
 		}
 	}
+	for _, cg := range g.ControlGenes {
+		if cg == nil || cg.ControlNode == nil {
+			return fmt.Errorf("nil control gene / control node")
+		}
+		if t := cg.ControlNode.Trait; t != nil && !traitSet[t] {
+			return fmt.Errorf("control node %d references a trait (id %d) that is not one of the genome's traits", cg.ControlNode.Id, t.Id)
+		}
+		for _, l := range append(append([]*network.Link{}, cg.ControlNode.Incoming...), cg.ControlNode.Outgoing...) {
+			for _, end := range []*network.NNode{l.InNode, l.OutNode} {
+				if end != cg.ControlNode && !nodeSet[end] {
+					return fmt.Errorf("module %d is wired to node %d, which is not one of the genome's own nodes", cg.ControlNode.Id, end.Id)
+				}
+			}
+		}
+	}
 	type key struct {
 		in, out int
 		rec     bool
